@@ -69,10 +69,10 @@ def run(ctx):
     groups["slots"] = gen(ctx, ctx.q("MC_Tree_slots", "MC_Tree_slots_thorough"))
     if ctx.thorough:
         groups["5way_y"] = gen(ctx, "MC_Tree_5way_y", timeout=1500)
-    groups["sim"] = gen(ctx, "MC_Tree_sim", simulate="num=%d" % ctx.q(60, 400), timeout=900)
+    groups["sim"] = gen(ctx, "MC_Tree_sim", simulate="num=%d" % ctx.q(60, 300), timeout=1500)
     # 5-way merges with slot files AND directories at d: directory terms (and padded absent terms) cancel and
     # leave files that must be content-merged
-    groups["sim_dfile"] = gen(ctx, "MC_Tree_sim2", simulate="num=%d" % ctx.q(150, 1000), timeout=900)
+    groups["sim_dfile"] = gen(ctx, "MC_Tree_sim2", simulate="num=%d" % ctx.q(150, 600), timeout=1500)
     lap("generated")
     # negative configs: the contract clauses can fail, and the known finding exists at design level
     negs = [("finding", "InvContract"), ("flag", "InvContract"), ("side", "InvContract"),
@@ -95,7 +95,7 @@ def run(ctx):
             exhaustive.append("%s=%d" % (name, len(cases)))
             bound += cases
         else:
-            k = min(len(cases), ctx.q(2000, 20000))
+            k = min(len(cases), ctx.q(2000, 6000))
             small = [c for c in cases if len(c["mm"]) < 5]
             big = [c for c in cases if len(c["mm"]) >= 5]
             bound += small + rnd.sample(big, min(len(big), k))
@@ -105,18 +105,18 @@ def run(ctx):
             f.write(json.dumps(c) + "\n")
     trace = ctx.path("c07.ndjson")
     ctx.harness("tree", ["merge", "--cases", casefile, "--out", trace, "--backend", "test",
-                         "--keep-every", ctx.q(3, 1), "--random", ctx.q(1500, 10000), "--seed", ctx.seed], timeout=2400)
+                         "--keep-every", ctx.q(3, 2), "--random", ctx.q(1500, 8000), "--seed", ctx.seed], timeout=2400)
     traces = [trace]
     lap("harness")
     if ctx.thorough:
         # the Git backend has concurrency 1: the TreeMerger's unstarted-work queue is exercised
         sub = ctx.path("c07-cases-git.ndjson")
         with open(sub, "w") as f:
-            for c in rnd.sample(bound, min(len(bound), 15000)):
+            for c in rnd.sample(bound, min(len(bound), 8000)):
                 f.write(json.dumps(c) + "\n")
         t2 = ctx.path("c07-git.ndjson")
         ctx.harness("tree", ["merge", "--cases", sub, "--out", t2, "--backend", "git",
-                             "--random", 3000, "--seed", ctx.seed + 1], timeout=2400)
+                             "--keep-every", 2, "--random", 2000, "--seed", ctx.seed + 1], timeout=2400)
         traces.append(t2)
     # 3. TLC judges every record
     n_known = 0
